@@ -9,27 +9,59 @@ META = {
     "title": "Removal and injection rules change exactly what they name",
     "level": "proof",
     "design_ref": "DESIGN.md section 6 / C17",
-    "technique": "Coq lemmas on local rewrites against the reference Lua semantics + whole-program "
+    "technique": "Coq theorems on the local rewrites (relational: original node in the modified environment vs replacement) "
+                 "against the reference Lua semantics + Gallina models of the rules tied to the Rust code + whole-program "
                  "translation validation in the Coq reference interpreter",
-    "level_text": "Machine-checked local-equivalence lemmas (Coq) for the rewrites these rules perform, stated against "
-                  "the fuel-indexed reference semantics; on every run, generated programs are transformed by the real rules "
-                  "(on the tree and end to end through each generator) and original and output are executed in the Coq "
-                  "reference interpreter under both dialects and several oracle streams, any difference being the replay.",
+    "level_text": "Machine-checked LOCAL theorems (Coq, 31 statements in Properties/C17.v) about the Gallina models "
+                  "(Model/Removal.v) of what remove_assertions, remove_debug_profiling and inject_global_value put in place "
+                  "of a node, against the fuel-indexed reference semantics, for every dialect, fuel, environment, varargs and "
+                  "store: the value-position replacement `(e or true) and nil` evaluates each kept argument once, in order, "
+                  "and yields nil (and can do nothing else); a removed call of a no-op / of `function(...) return ... end` in "
+                  "value position (assert(): nil, assert(e): e with all values, assert(e1, e2, ..): select(1, ..)) and in "
+                  "statement position (kept calls become call statements: same environment, same store; a kept non-call "
+                  "becomes `local _ = e`: one more cell and a binding of `_`); reading an unshadowed global holding a "
+                  "scalar equals evaluating the injected literal, also for `_G.x`, `_G[\"x\"]` and in prefix position; "
+                  "arrays/objects evaluate to a fresh table with the configured content (C14's serializer theorem). Six "
+                  "`_refuted` witnesses state the recorded findings. On every run the models (incl. the ScopeVisitor / "
+                  "IdentifierTracker traversal, the visit-order dependent `select` reservation and the JSON value "
+                  "conversion) are compared with the real rules on ~8000 templates hitting every arm (block_eqb (model IN) "
+                  "OUT inside Coq), and generated programs and observable templates are pushed through the real rules and "
+                  "reference (input in the modified environment) and output are executed in the Coq interpreter.",
     "level_note": "Trusted: Coq kernel + vm_compute; Lua/Sem.v (specification); harness dl-rules + astdump. The lifting of "
-                  "local lemmas to whole programs is not proved (partial): whole-program equivalence is validated per run, "
-                  "not for all programs.",
+                  "the local theorems to whole programs (that the traversal rewrites every unshadowed occurrence and nothing "
+                  "else, and that local equivalence composes) is NOT proved (partial): whole-program equivalence is "
+                  "validated per run, not for all programs.",
     "trusted_base": ["Coq 8.16.1 kernel, vm_compute", "Lua/Sem.v reference semantics + Lib/F64.v (specification)",
+                     "standard-library axioms via Flocq (of_Z is a valid binary64), inherited by inject_scalar_expr_sound and "
+                     "inject_ident_sound only (their _exact variants for |z| < 2^53 are axiom-free): sig_not_dec, "
+                     "sig_forall_dec, functional_extensionality_dep, classic",
                      "harness/crates/rules (program generator) + astdump (AST printer)", "darklua's parser (to read programs)"],
-    "allowed_axioms": [],
-    "rule": "seeded typed generator of observable programs (closures, upvalues, shadowing, varargs, multiple returns, "
-            "metatables with observable metamethods, loops with break, method calls, foldable and dead code) x remove_assertions, remove_debug_profiling, inject_global_value (values of every JSON kind); the reference program is the input run in the correspondingly modified environment (assert := function returning its arguments, profiling functions := no-ops, the global preset); a case is "
-            "non-trivial when the reference run gives a verdict (error-free, dialect-independent) and the rules changed the tree",
-    "assumptions": ["Lua/Sem.v is a faithful reference semantics on the modelled fragment"],
+    "allowed_axioms": ["ClassicalDedekindReals.sig_not_dec", "ClassicalDedekindReals.sig_forall_dec",
+                       "FunctionalExtensionality.functional_extensionality_dep", "Classical_Prop.classic"],
+    "rule": "(1) seeded typed generator of observable programs x remove_assertions, remove_debug_profiling, "
+            "inject_global_value (values of every JSON kind); the reference program is the input run in the correspondingly "
+            "modified environment (assert := function returning its arguments, profiling functions := no-ops, the global "
+            "preset); non-trivial when the reference run gives a verdict and the rules changed the tree. (2) templates: calls "
+            "of the targeted functions with 0..5 arguments pure/effectful in tuple/string/table form, in statement, value and "
+            "prefix position, look-alikes, every binding construct shadowing assert/debug/select/_G/the injected name at "
+            "every scope, visit-order dependent select reservation, 30 JSON values of every kind; non-trivial when model = "
+            "code and the rule changed the tree. (3) observable templates incl. the recorded finding shapes: reference run vs "
+            "run of the output",
+    "assumptions": ["Lua/Sem.v is a faithful reference semantics on the modelled fragment",
+                    "the local theorems are not lifted to whole programs (validated per run instead)",
+                    "local theorems: dropped (side-effect free) arguments are 'quiet' (their evaluation changes no store: "
+                    "literals, locals, `...`, parentheses, not); kept arguments in the exact statement theorem are calls; the "
+                    "callee is a no-op / the identity on the evaluated arguments; reading the global runs no metamethod",
+                    "models leave out: `const function`, inject_global_value's env/env_json/default_value properties and "
+                    "object values that deserialise as a RequireMode (C19 finding), method type instantiations",
+                    "recorded findings (known_findings.txt): directly nested removed call survives; removed call in "
+                    "multi-value tail position yields one nil; `local _ = v` can shadow a user variable"],
 }
 
 def run(ctx):
     C.build_harness("dl-rules")
-    proofs_ok = C.proof_gate(ctx, ["Lua/RunCheck.vo", "Lua/KnownClasses.vo"])
+    proofs_ok = C.proof_gate(ctx, ["Lua/RunCheck.vo", "Lua/KnownClasses.vo", "Lua/Fingerprint.vo", "Model/Refactor.vo",
+                                   "Model/Removal.vo", "Model/RemovalKnown.vo", "Model/DefaultRules.vo"])
     n = 400 if ctx.tier == "quick" else 6000
     rulecheck.run_profile(ctx, "c17", n, classify=None)
     # the tie of the local theorems' models (Model/Refactor.v, Model/Removal.v, Model/Visit.v) to the Rust rules
